@@ -572,7 +572,7 @@ func runC08Traced(c *fw.Case) {
 		}
 		if r.timeout {
 			c.Probe("procsim-timeout-case-dropped")
-			continue
+			return // a child that hangs once will hang again: do not spend the case limit on it
 		}
 		if !r.signaled {
 			continue // a different interleaving of the threads ended before its k-th call
